@@ -19,8 +19,13 @@ def gen_rule(rng, items, idgen, depth=1, p_id=0.4):
         return {"k": k, "id": vid, "args": [V(i) for i in its]}
     if k in ("ccAny", "ccXor"):
         r = {"k": k, "id": vid, "args": [V(i) for i in its]}
-        if rng.random() < 0.85:
+        t = rng.random()
+        if t < 0.8:
             r["default"] = [rng.choice(its)]
+        elif t < 0.9:
+            others = [i for i in items if i not in its]
+            if others:
+                r["default"] = [rng.choice(others)]      # a default that is not among the alternatives: kept, but without effect
         return r
     if k == "AtMost":
         return {"k": "AtMost", "id": vid, "args": [V(i) for i in its], "value": rng.randint(1, 2)}
